@@ -64,9 +64,10 @@ Proof.
 Qed.
 
 (* Arbitrary derivative orders (ndsplineeval_deriv): order 0 and 1 along a dimension as above; an order >= 2 along a dimension
-   is covered where that dimension's knots are strictly increasing and the coordinate lies below the upper end of full support
-   (derivk_ok). Outside that — exactly on knots at or above knots[naxes] — the code uses the piece to the RIGHT, which is the
-   known finding C02:deriv>=2@x>=upper_full_support_knot, not a theorem. Orders above the spline order give zero (dBfun). *)
+   is covered wherever that dimension's knots are strictly increasing (derivk_ok; the recursive definition divides by knot
+   differences) — at EVERY point where lookup succeeds, with the same one-sided convention as plain evaluation (right-continuous
+   below knots[naxes], left-continuous from there upwards: bspline_deriv / bspline_deriv_left; the left-continuous twin is the
+   repair of finding D3). Orders above the spline order give zero (dBfun). *)
 Theorem C02_deriv_is_derivative_sum : forall ks, length ks = length (dims t) ->
   Forall3 derivk_ok (dims t) xs ks ->
   ndsplineeval_deriv t xs cs ks = spline_spec t xs ks.
@@ -174,18 +175,21 @@ Proof.
   destruct Hx as [<-|[<-|[]]]; eexists; (split; [vm_compute; reflexivity|]); split; try (vm_compute; reflexivity); vm_compute; discriminate.
 Qed.
 
-(* second derivative of the order-2 example at 7/2: strictly increasing knots, below the upper end — hypotheses of
+(* second derivative of the order-2 example at 7/2 (interior) and at the knots 5 = knots[naxes], 6 and 7 (last knot), where the
+   left-continuous twin is used: strictly increasing knots — hypotheses of
    C02_deriv_is_derivative_sum hold and the value is the non-zero constant second derivative of that piece *)
 Example C02_deriv2_satisfiable :
   Forall3 derivk_ok (dims ex_tab2) [Q2Qc (7 # 2)] [2%nat] /\
   ndsplineeval_deriv ex_tab2 [Q2Qc (7 # 2)] [3] [2%nat] = spline_spec ex_tab2 [Q2Qc (7 # 2)] [2%nat] /\
-  ndsplineeval_deriv ex_tab2 [Q2Qc (7 # 2)] [3] [2%nat] = Q2Qc 2.
+  ndsplineeval_deriv ex_tab2 [Q2Qc (7 # 2)] [3] [2%nat] = Q2Qc 2 /\
+  (forall x, In x [qz2 5; qz2 6; qz2 7] ->
+     ndsplineeval_deriv ex_tab2 [x] [4] [2%nat] = spline_spec ex_tab2 [x] [2%nat] /\ ndsplineeval_deriv ex_tab2 [x] [4] [2%nat] <> Q2Qc 0).
 Proof.
-  split; [|split; vm_compute; reflexivity].
-  constructor; [|constructor]. right. split.
-  - intros i j Hi Hij Hj. cbn [d_kn d_nknots] in *. unfold qz2. apply Qc_ltb_lt. unfold Qclt. cbn [this Q2Qc].
+  split; [|split; [vm_compute; reflexivity|split; [vm_compute; reflexivity|]]].
+  - constructor; [|constructor]. right.
+    intros i j Hi Hij Hj. cbn [d_kn d_nknots] in *. unfold qz2. apply Qc_ltb_lt. unfold Qclt. cbn [this Q2Qc].
     rewrite !Qred_correct. rewrite <- Zlt_Qlt. lia.
-  - vm_compute. reflexivity.
+  - intros x Hx. cbn [In] in Hx. destruct Hx as [<-|[<-|[<-|[]]]]; (split; [vm_compute; reflexivity|vm_compute; discriminate]).
 Qed.
 
 Print Assumptions C02_bitmask_is_derivative_sum.
